@@ -20,6 +20,8 @@ for name in sorted(os.listdir(root)):
     for cm in re.finditer(r"^(C\d\d) exit=(\d+) ?(.*)$", txt, re.M):
         checks[cm.group(1)] = {"exit": int(cm.group(2)), "first_report": cm.group(3)[:200]}
     prop = name.split("-")[0]
+    fm = re.search(r"^FIRST (C\d\d) exit=(\d+) ?(.*)$", txt, re.M)
+    first = {"check": fm.group(1), "exit": int(fm.group(2)), "first_report": fm.group(3)[:200]} if fm else None
     meta = {
         "property_broken": prop,
         "author": "independent sub-agent given only the property text and a scratch worktree of /repo (nothing from /verif)",
@@ -34,9 +36,10 @@ for name in sorted(os.listdir(root)):
         "checks_run_against_it": checks,
         "caught_by": sorted(k for k, v in checks.items() if v["exit"] == 1),
         "own_check_catches": checks.get(prop, {}).get("exit") == 1,
+        "own_check_first_run_before_this_change_was_seen": first,
         "how_run": "audit/verify_seed.sh <author's out dir> <k> %s <IDs>: VERIF_REPO=<scratch> ./check <ID> --tier quick" % name,
     }
     json.dump(meta, open(os.path.join(d, "meta.json"), "w"), indent=1)
-    rows.append((name, meta["confirmed_by_me"]["kept"], meta["own_check_catches"], ",".join(meta["caught_by"])))
+    rows.append((name, meta["confirmed_by_me"]["kept"], meta["own_check_catches"], ("-" if first is None else str(first["exit"] == 1)), ",".join(meta["caught_by"])))
 for r in rows:
-    print("%-62s kept=%-5s own=%-5s caught_by=%s" % r)
+    print("%-62s kept=%-5s own=%-5s first=%-5s caught_by=%s" % r)
